@@ -41,7 +41,7 @@ Proof.
     rewrite forallb_zero_repeat. discriminate. }
   rewrite Hrun. destruct Hinv as (Hi & Hdst & _).
   destruct (if error_nonzero kp error' then rescan A s else Ok tt); simpl; try lia.
-  destruct (i' <? length s); simpl; try lia.
+  destruct (kp_tail_always kp || (i' <? length s))%bool; simpl; try lia.
   rewrite app_length, firstn_length, generic_in_bounds, skipn_length. lia.
 Qed.
 
@@ -217,4 +217,12 @@ Lemma into_at_placement_irrelevant A p p' text text' so so' n mem mem' d d' m : 
 Proof.
   intros H Hs Hs' Hd Hd' E.
   rewrite !into_at_outcome_any by assumption. rewrite E. reflexivity.
+Qed.
+
+Lemma neon_in_bounds A : abc_ok_neon A = true -> in_bounds (encode_into_neon A).
+Proof.
+  unfold abc_ok_neon. intros H. apply andb_true_iff in H. destruct H as [H HN].
+  pose proof (abc_ok_tables A H) as T.
+  assert (HK : a_K A <= length (a_str A)) by (rewrite (tc_len A T); lia).
+  apply simd_in_bounds; auto. simpl; lia.
 Qed.
